@@ -64,7 +64,23 @@ func (server *Server) Expire(conn *redis.Conn, key string, opt redis.ExpireOptio
 		return redis.NewIntegerMessage(0), nil
 	}
 	now := time.Now()
-	record.TTL = opt.Time.Sub(now)
+	ttl := opt.Time.Sub(now)
+	// A key without a time to live counts as an infinite one for GT and LT.
+	hasTTL := 0 < record.TTL
+	currTTL := record.Timestamp.Add(record.TTL).Sub(now)
+	switch {
+	case opt.NX && hasTTL, opt.XX && !hasTTL, opt.GT && (!hasTTL || ttl <= currTTL), opt.LT && hasTTL && currTTL <= ttl:
+		return redis.NewIntegerMessage(0), nil
+	}
+	if ttl <= 0 {
+		// A time in the past deletes the key.
+		if err := db.RemoveRecord(key); err != nil {
+			return redis.NewIntegerMessage(0), nil
+		}
+		return redis.NewIntegerMessage(1), nil
+	}
+	record.Timestamp = now
+	record.TTL = ttl
 	return redis.NewIntegerMessage(1), nil
 }
 
